@@ -20,6 +20,8 @@ Record eobs := { x_call : ecall; x_val : string; x_fresh : string }.
 
 Inductive case :=
 | CIdent (cfg : config) (users : list string) (steps : list sobs) (final : db)
+         (aliased : list nat)   (* steps whose answer was not the caller's own object: the very object of an earlier
+                                   answer / argument, or an earlier answer found changed after the step (round 4) *)
 | CCodec (items : list (nameid * string * option nameid))   (* n, code(n), decode(code(n)) observed *)
 | CDecode (s : string) (r : option nameid)                   (* decode(s) observed; None = ValueError *)
 | CEptid (secret : string) (md5tab : list (string * string)) (calls : list eobs).
@@ -108,10 +110,10 @@ Definition codec_item_agrees (it : nameid * string * option nameid) : bool :=
 
 Definition agrees (c : case) : bool :=
   match c with
-  | CIdent cfg users steps final =>
+  | CIdent cfg users steps final aliased =>
       match first_bad cfg 0 [] [] steps with
       | Some _ => false
-      | None => db_eqb (obs_final steps) final
+      | None => db_eqb (obs_final steps) final && match aliased with [] => true | _ => false end
       end
   | CCodec items => forallb codec_item_agrees items
   | CDecode s r => opt_eqb nameid_eqb (decode s) r
@@ -125,7 +127,7 @@ Definition user_pred (users : list string) (s : string) : bool := mem s users.
 
 Definition holds (c : case) : bool :=
   match c with
-  | CIdent cfg users steps final => ident_spec_b cfg (user_pred users) (obs_trace [] steps)
+  | CIdent cfg users steps final _ => ident_spec_b cfg (user_pred users) (obs_trace [] steps)
   | CCodec items => codec_spec_b items
   | CDecode _ _ => true
   | CEptid secret tab calls => eptid_spec_b (map (fun x => (x_call x, x_val x, x_fresh x)) calls)
@@ -146,7 +148,7 @@ Definition fresh_obs (calls : list eobs) := map (fun x => (x_call x, x_fresh x, 
 
 Definition cls (c : case) : nat :=
   match c with
-  | CIdent cfg users steps final =>
+  | CIdent cfg users steps final _ =>
       let tr := obs_trace [] steps in
       if negb (qualified_b cfg tr) then 3
       else if negb (single_valued_b cfg tr) then 2
@@ -161,7 +163,7 @@ Definition run := run_cases agrees holds cls.
 
 Definition explain (c : case) :=
   match c with
-  | CIdent cfg users steps final =>
+  | CIdent cfg users steps final aliased =>
       let tr := obs_trace [] steps in
       (first_bad cfg 0 [] [] steps,
        match first_bad cfg 0 [] [] steps with
@@ -170,7 +172,7 @@ Definition explain (c : case) :=
        end,
        (wf_b cfg (user_pred users) tr, ident_spec_parts_b cfg (user_pred users) tr,
         qualified_b cfg tr, single_valued_b cfg tr),
-       db_eqb (obs_final steps) final)
+       db_eqb (obs_final steps) final && match aliased with [] => true | _ => false end)
   | CCodec items => (None, None, (true, [forallb codec_item_agrees items; codec_spec_b items], true, true), true)
   | CDecode s r => (None, None, (true, [opt_eqb nameid_eqb (decode s) r], true, true), true)
   | CEptid secret tab calls =>
